@@ -327,6 +327,8 @@ impl Node {
         node_fts_str: &Option<String>,
     ) -> std::result::Result<(), rusqlite::Error> {
         static UPDATE_FTS_QUERY: &str = "INSERT INTO _node_fts (rowid, text) VALUES (?, ?)";
+        #[cfg(feature = "verif")]
+        crate::verif_hooks::fault("node.write")?;
         if let Some(id) = self._local_id {
             if index {
                 if let Some(previous) = old_fts_str {
